@@ -333,10 +333,12 @@ impl IoLoop {
             Err(err) => {
                 // If our credentials are bad, the socket is dropped without a message,
                 // but we can detect that if we had gotten up to the Secure state before
-                // failing.
-                return match state {
-                    HandshakeState::Secure(_, _) => InvalidCredentialsSnafu.fail(),
-                    _ => Err(err),
+                // the socket was closed on us. Any other failure keeps its own error.
+                return match (state, err) {
+                    (HandshakeState::Secure(_, _), Error::UnexpectedSocketClose) => {
+                        InvalidCredentialsSnafu.fail()
+                    }
+                    (_, err) => Err(err),
                 };
             }
         }
